@@ -14,7 +14,7 @@
 From Coq Require Import String NArith ZArith QArith Bool Arith List Permutation.
 From GT Require Import Base.UTree Spec.Obs Spec.ConsensusSpec Model.Reroot Model.Index Model.EdgeIndex Model.Compare Model.Consensus
      Proofs.IndexSplit Proofs.CompareTree Proofs.CompareMain Proofs.ConsensusFloat Proofs.ConsensusCount
-     Proofs.ConsensusMain Proofs.ConsensusFreq.
+     Proofs.ConsensusMain Proofs.ConsensusFreq Proofs.CompareDomain.
 Import ListNotations.
 Local Close Scope Q_scope.
 Local Open Scope string_scope.
@@ -125,6 +125,26 @@ Theorem C09_selected_iff_frequency :
                       <-> keep_split c64 (Z.of_nat (length (t0 :: r))) (Z.of_nat (tree_freq s (t0 :: r))) = true).
 Proof. exact selected_iff_frequency. Qed.
 Print Assumptions C09_selected_iff_frequency.
+
+(** for unrooted inputs of the domain ([unrooted], Proofs/CompareDomain.v: good, root of degree >= 3,
+    no node with a single child) [tree_freq] is the frequency of the specification
+    ([freq_count], Spec/ConsensusSpec.v, over [usplits]), and the selection reads: *)
+Theorem C09_tree_freq_spec :
+  forall s ts, Forall unrooted ts -> tree_freq s ts = freq_count ts (sside s).
+Proof. exact tree_freq_spec. Qed.
+Print Assumptions C09_tree_freq_spec.
+
+Theorem C09_selected_iff_freq_count :
+  forall t0 r c64,
+    unrooted t0 -> Forall (fun t => unrooted t /\ Permutation (leaves t) (leaves t0)) r ->
+    exists a, cons_counts_assoc (t0 :: r) = Some (Ok (a, Z.of_nat (length (t0 :: r)))) /\
+      forall k c l, In (k, (c, l)) a ->
+        exists tj s, In tj (t0 :: r) /\ key_of tj k s /\
+                     c = Z.of_nat (freq_count (t0 :: r) (sside s)) /\
+                     (In (k, (c, l)) (filter (fun kv => keep_split c64 (Z.of_nat (length (t0 :: r))) (fst (snd kv))) a)
+                      <-> keep_split c64 (Z.of_nat (length (t0 :: r))) (Z.of_nat (freq_count (t0 :: r) (sside s))) = true).
+Proof. exact selected_iff_freq_count. Qed.
+Print Assumptions C09_selected_iff_freq_count.
 
 (** * rejections *)
 Theorem C09_bad_cutoff :
